@@ -125,7 +125,7 @@ fn c02_o1d_from_dht_message_max_salt() {
 //@ cap: 900
 //@ also: C03 C05
 //@ desc: malformed key lengths are rejected without panic and without any verification: key slice length in {0, 31, 33}
-//@ bounds: three key lengths (symbolic choice), concrete contents, well-formed 64-byte signature; unwind 130
+//@ bounds: key lengths 0, 31, 33 (one concrete call each), symbolic 1-byte value, well-formed 64-byte signature; unwind 130
 //@ stubs: <VerifyingKey as Verifier<Signature>>::verify -> oracle (never reached)
 //@ functions: MutableItem::from_dht_message, VerifyingKey::try_from (length check)
 #[kani::proof]
@@ -133,17 +133,19 @@ fn c02_o1d_from_dht_message_max_salt() {
 #[kani::unwind(130)]
 fn c02_o1e_from_dht_message_key_lengths() {
     oracle::arm(0, true);
-    let which: u8 = kani::any();
-    kani::assume(which < 3);
     let kbuf = [1u8; 33];
     let sbuf = [2u8; 64];
-    let klen = if which == 0 { 0 } else if which == 1 { 31 } else { 33 };
-    let r = MutableItem::from_dht_message(Id::from([0u8; 20]), &kbuf[..klen], Box::new([1]), 1, &sbuf, None);
-    assert!(r.is_err(), "C02.O1e malformed key or signature length rejected");
+    let vb: u8 = kani::any();
+    let r0 = MutableItem::from_dht_message(Id::from([0u8; 20]), &kbuf[..0], Box::new([vb]), 1, &sbuf, None);
+    let r1 = MutableItem::from_dht_message(Id::from([0u8; 20]), &kbuf[..31], Box::new([vb]), 1, &sbuf, None);
+    let r2 = MutableItem::from_dht_message(Id::from([0u8; 20]), &kbuf[..33], Box::new([vb]), 1, &sbuf, None);
+    assert!(r0.is_err() && r1.is_err() && r2.is_err(), "C02.O1e malformed key or signature length rejected");
     assert!(oracle::asked() == 0, "C02.O1e nothing verified for malformed lengths");
-    kani::cover!(which == 2);
-    kani::cover!(which == 0);
-    std::mem::forget(r);
+    kani::cover!(vb == 0);
+    kani::cover!(vb != 0);
+    std::mem::forget(r0);
+    std::mem::forget(r1);
+    std::mem::forget(r2);
 }
 
 //@ ob: C02.O1f
@@ -151,7 +153,7 @@ fn c02_o1e_from_dht_message_key_lengths() {
 //@ cap: 900
 //@ also: C03 C05
 //@ desc: malformed signature lengths are rejected without panic and without any verification: signature length in {0, 63, 65}, with a well-formed key
-//@ bounds: three signature lengths (symbolic choice), concrete valid key; unwind 130 (concrete point decompression)
+//@ bounds: signature lengths 0, 63, 65 (one concrete call each), concrete valid key, symbolic 1-byte value; unwind 130 (concrete point decompression)
 //@ stubs: <VerifyingKey as Verifier<Signature>>::verify -> oracle (never reached)
 //@ functions: MutableItem::from_dht_message, Signature::from_slice
 #[kani::proof]
@@ -159,16 +161,18 @@ fn c02_o1e_from_dht_message_key_lengths() {
 #[kani::unwind(130)]
 fn c02_o1f_from_dht_message_sig_lengths() {
     oracle::arm(0, true);
-    let which: u8 = kani::any();
-    kani::assume(which < 3);
     let sbuf = [2u8; 65];
-    let slen = if which == 0 { 0 } else if which == 1 { 63 } else { 65 };
-    let r = MutableItem::from_dht_message(Id::from([0u8; 20]), &oracle::K1, Box::new([1]), 1, &sbuf[..slen], None);
-    assert!(r.is_err(), "C02.O1e malformed key or signature length rejected");
+    let vb: u8 = kani::any();
+    let r0 = MutableItem::from_dht_message(Id::from([0u8; 20]), &oracle::K1, Box::new([vb]), 1, &sbuf[..0], None);
+    let r1 = MutableItem::from_dht_message(Id::from([0u8; 20]), &oracle::K1, Box::new([vb]), 1, &sbuf[..63], None);
+    let r2 = MutableItem::from_dht_message(Id::from([0u8; 20]), &oracle::K1, Box::new([vb]), 1, &sbuf[..65], None);
+    assert!(r0.is_err() && r1.is_err() && r2.is_err(), "C02.O1e malformed key or signature length rejected");
     assert!(oracle::asked() == 0, "C02.O1e nothing verified for malformed lengths");
-    kani::cover!(which == 2);
-    kani::cover!(which == 0);
-    std::mem::forget(r);
+    kani::cover!(vb == 0);
+    kani::cover!(vb != 0);
+    std::mem::forget(r0);
+    std::mem::forget(r1);
+    std::mem::forget(r2);
 }
 
 impl MutableItem {
